@@ -247,20 +247,34 @@ def boundC04 (cap : Nat) : Trace → Bool
   | _ :: rest => boundC04 cap rest
   | [] => true
 
-/-- Concurrent cache: at every snapshot taken right after `sync` with both queues empty the
-residents weigh at most `cap` unless the excess is being worked off (the previous snapshot
-already exceeded it or entries are dirty); between maintenance runs the map holds at most
-`entry_count + |write queue| + 1` entries. -/
-def boundC04Sync (cap : Nat) : Trace → Bool
-  | (.sync, .ok) :: (.snap, .snap sn) :: rest =>
-    decide (sn.entries.length ≤ sn.ec + sn.wq + 1) &&
-    (!(sn.rq == 0 && sn.wq == 0) || decide (sn.entries.length > 400) ||
-      decide (snapWeight sn ≤ cap)) &&
-    boundC04Sync cap rest
-  | (.snap, .snap sn) :: rest =>
-    decide (sn.entries.length ≤ sn.ec + sn.wq + 1) && boundC04Sync cap rest
-  | _ :: rest => boundC04Sync cap rest
-  | [] => true
+/-- `boundC04Sync` with the number `n` of `insert` calls seen so far (an upper bound of the
+number of entries the map holds). -/
+def boundC04SyncGo (cap : Nat) : Nat → Trace → Bool
+  | n, (.snap, .snap mid) :: (.sync, .ok) :: (.snap, .snap after) :: rest =>
+    decide (mid.entries.length ≤ mid.ec + mid.wq + 1) &&
+    (!(after.rq == 0 && after.wq == 0) || decide (snapWeight after ≤ cap) ||
+      decide (after.entries.length + Gen.SYNC_EVICTION_BATCH_SIZE ≤ mid.entries.length)) &&
+    boundC04SyncGo cap n ((.snap, .snap after) :: rest)
+  | n, (.sync, .ok) :: (.snap, .snap after) :: rest =>
+    (!(after.rq == 0 && after.wq == 0) || decide (snapWeight after ≤ cap) ||
+      decide (after.entries.length + Gen.SYNC_EVICTION_BATCH_SIZE ≤ n)) &&
+    boundC04SyncGo cap n ((.snap, .snap after) :: rest)
+  | n, (.snap, .snap sn) :: rest =>
+    decide (sn.entries.length ≤ sn.ec + sn.wq + 1) && boundC04SyncGo cap n rest
+  | n, (.ins _ _, _) :: rest => boundC04SyncGo cap (n + 1) rest
+  | n, _ :: rest => boundC04SyncGo cap n rest
+  | _, [] => true
+
+/-- Concurrent cache: at every snapshot the map holds at most
+`entry_count + |write queue| + 1` entries; at every snapshot taken right after `sync` with
+both queues empty the residents weigh at most `cap`, unless that maintenance run has
+removed a full eviction batch (`SYNC_EVICTION_BATCH_SIZE` entries): compared with the snapshot
+taken right before the `sync` if there is one, otherwise with the number of `insert` calls so
+far (an upper bound of the number of entries). Excess can only come from updates that make an
+entry heavier; each maintenance run works it off one batch at a time. (An earlier version
+tolerated excess only above 400 residents; the prover of `C04_sync` showed a history of the
+current code on which that is false: 501 zero-weight residents and one growing update.) -/
+def boundC04Sync (cap : Nat) (t : Trace) : Bool := boundC04SyncGo cap 0 t
 
 def oracleC04 (kind : Kind) (cap : Option Nat) (t : Trace) : Bool :=
   match cap, kind with
